@@ -33,7 +33,8 @@ BASE = {
     "rule": "behaviours = every (offset, skip) assignment to 1-3 backends for table size 5 (quick, thinned by seed) / 7 and 1-4 "
             "backends for size 5 (thorough), fed to the real code through table-driven hash.Hash fakes, each backend set added in "
             "ascending, descending and rotated order with a duplicated addition; seeded random sets (sizes 5..101, table-driven "
-            "incl. identical preference lists, and the real FNV-32 hashes with up to 64 backends, subsets, shuffled orders); every "
+            "incl. identical preference lists, and the real FNV-32 hashes with up to 64 backends, subsets, shuffled orders; one in six "
+            "with more backends than table entries, sizes 5/7/11); every "
             "size BPFLUTSizeMaglev() returns for BPFMaglevMaxEndpointsPerService = 1..3000 is recorded and tables are generated for "
             "a seeded sample of the distinct sizes (quick) / all of them (thorough) in two orders; non-trivial = one backend set "
             "(>= 2 backends) added in two different orders; distinct = distinct event sequences",
